@@ -197,7 +197,9 @@ func (x *xlator) zero(t types.Type, nat bool) string {
 	case kErr:
 		return "Err.nil"
 	case kIface:
-		if a := x.ifaceAbs(t); a != "" {
+		if a := x.ifaceAbs(t); a == "Nat" {
+			return "(0 : Nat)"
+		} else if a != "" {
 			return "(default : " + a + ")"
 		}
 	}
@@ -205,14 +207,101 @@ func (x *xlator) zero(t types.Type, nat bool) string {
 	return ""
 }
 
-// ifaceAbs: interfaces the translator represents by an opaque value.  An empty
-// interface that is only stored and copied (a callback identity) is a natural
-// number.
+// abstractIfaces: interface types represented by a record of observations: one
+// field per method that a translated function calls on a value of the type
+// (the value the call returns; a method taking a byte slice is a function from
+// the slice before the call to the slice after it and the results), plus `dyn`,
+// the dynamic type (for type switches and assertions).  Calling such a method
+// is taken to have no other effect and to give the same answer every time.
+var abstractIfaces = map[string]bool{
+	"message.Message": true,
+}
+
+type ifaceInfo struct {
+	named  *types.Named
+	lean   string
+	fields []*obsField
+	byName map[string]*obsField
+}
+
+type obsField struct {
+	name  string
+	lean  string
+	leanT string
+}
+
+// ifaceAbs: interfaces the translator represents.  An empty interface that is
+// only stored and copied (a callback identity) is a natural number; the
+// interfaces of abstractIfaces are records of observations.
 func (x *xlator) ifaceAbs(t types.Type) string {
 	if it, ok := t.Underlying().(*types.Interface); ok && it.NumMethods() == 0 {
 		return "Nat"
 	}
+	if ii := x.ifaceOf(t); ii != nil {
+		return ii.lean
+	}
 	return ""
+}
+
+func (x *xlator) ifaceOf(t types.Type) *ifaceInfo {
+	n, ok := t.(*types.Named)
+	if !ok || n.Obj().Pkg() == nil {
+		return nil
+	}
+	if _, ok := n.Underlying().(*types.Interface); !ok {
+		return nil
+	}
+	k := n.Obj().Pkg().Name() + "." + n.Obj().Name()
+	if !abstractIfaces[k] {
+		return nil
+	}
+	if ii, ok := x.ifaces[k]; ok {
+		return ii
+	}
+	ii := &ifaceInfo{named: n, lean: x.pkgPrefix(n.Obj().Pkg()) + "." + leanIdent(n.Obj().Name()), byName: map[string]*obsField{}}
+	x.ifaces[k] = ii
+	x.ifaceOrder = append(x.ifaceOrder, ii)
+	return ii
+}
+
+// observation registers (once) the field for method m of an abstracted interface
+func (x *xlator) observation(ii *ifaceInfo, m *types.Func) *obsField {
+	if of, ok := ii.byName[m.Name()]; ok {
+		return of
+	}
+	sig := m.Type().(*types.Signature)
+	var ps, rs []string
+	for i := 0; i < sig.Params().Len(); i++ {
+		pt := sig.Params().At(i).Type()
+		ps = append(ps, x.leanType(pt, false))
+		if k := kindOf(pt); k == kBytes || k == kSlice {
+			rs = append(rs, x.leanType(pt, false)) // the slice after the call
+		}
+	}
+	for i := 0; i < sig.Results().Len(); i++ {
+		rs = append(rs, x.leanType(sig.Results().At(i).Type(), false))
+	}
+	if len(rs) == 0 {
+		rs = []string{"Unit"}
+	}
+	of := &obsField{name: m.Name(), lean: leanIdent(m.Name()), leanT: strings.Join(append(ps, strings.Join(rs, " × ")), " → ")}
+	ii.byName[m.Name()] = of
+	ii.fields = append(ii.fields, of)
+	return of
+}
+
+func (x *xlator) ifaceDecls() string {
+	var b strings.Builder
+	for _, ii := range x.ifaceOrder {
+		fmt.Fprintf(&b, "/-- Go: interface `%s.%s`, abstracted: what the translated functions observe of a value of\nthis type — `dyn` is its dynamic type, every other field is the result of the method of that\nname (a method taking a byte slice: the slice after the call, then the results) -/\n",
+			ii.named.Obj().Pkg().Name(), ii.named.Obj().Name())
+		fmt.Fprintf(&b, "structure %s where\n  dyn : String\n", ii.lean)
+		for _, of := range ii.fields {
+			fmt.Fprintf(&b, "  %s : %s\n", of.lean, of.leanT)
+		}
+		b.WriteString("deriving Inhabited\n\n")
+	}
+	return b.String()
 }
 
 func (x *xlator) pkgPrefix(p *types.Package) string {
@@ -323,7 +412,7 @@ inductive Err where
   | var (name : String)
   | val (typ : String) (v : Nat)
   | dyn
-deriving DecidableEq, Repr
+deriving DecidableEq, Repr, Inhabited
 
 /-- Outcome of a translated function that can fail to return normally:
 ` + "`panic`" + ` = a Go run-time panic (index or slice bounds, division by zero, explicit
